@@ -51,7 +51,8 @@ UF_DOC = {
     "py_obj_eq": "== between repo objects (Block/Field.__eq__): reflexive, symmetric; implies equal class (proved for the repo's __eq__ in C19)",
 }
 DIGITS = z3.Plus(z3.Range("0", "9"))
-WS_CHARS = " \t\n\r\x0b\x0c\x1c\x1d\x1e\x1f\x85\xa0"
+# exactly the characters str.strip() removes (str.isspace() over all code points, computed from the running CPython)
+WS_CHARS = "".join(c for c in map(chr, range(0x110000)) if c.isspace())
 
 
 def _py_str(t):
@@ -131,11 +132,10 @@ def _facts_for(name, t):
             # a string whose first and last characters are literal non-whitespace is its own strip
             first = z3.SubString(a, 0, 1)
             last = z3.SubString(a, z3.Length(a) - 1, 1)
-            nws = lambda c: z3.And([c != z3.StringVal(w) for w in WS_CHARS] + [U["isspace"](c) == False])
+            nws = lambda c: z3.And([c != z3.StringVal(w) for w in WS_CHARS])
             out.append(z3.Implies(z3.And(z3.Length(a) > 0, nws(first), nws(last)), t == a))
             # result has no whitespace at its ends
-            out.append(z3.Implies(z3.Length(t) > 0, z3.And(
-                z3.Not(U["isspace"](z3.SubString(t, 0, 1))), z3.Not(U["isspace"](z3.SubString(t, z3.Length(t) - 1, 1))))))
+            out.append(z3.Implies(z3.Length(t) > 0, z3.And(nws(z3.SubString(t, 0, 1)), nws(z3.SubString(t, z3.Length(t) - 1, 1)))))
     elif name == "py_rstrip":
         if lit is not None:
             out.append(t == z3.StringVal(lit.rstrip()))
